@@ -496,6 +496,26 @@ pub fn run(ctx: &mut Ctx) -> Result<(), Violation> {
         ctx.stage(&format!("routes-all-functions-k{}", k), true, r)?;
     }
 
+    // random functions of 5 and 6 variables through all routes
+    let cases = ctx.tier.pick(2_000, 60_000);
+    let r = par_random(ctx, "routes-random-5-6-vars", cases, 12, |tape, st| {
+        let mut t = Tape::new(tape);
+        let k = 5 + t.choose(2);
+        let mut bits = t.u64();
+        if k == 5 {
+            bits &= 0xffff_ffff;
+        }
+        let tt = TT::from_bits(k, bits);
+        let ids: Vec<usize> = if t.flag() { (0..k).collect() } else { vec![1, 3, 4, 8, 9, 12][..k].to_vec() };
+        st.evals(ROUTES.len() as u64 * 2);
+        st.class("route-evaluations-5-6-vars");
+        if st.nontrivial(mix(bits, k as u64 + 100)) {
+            st.nt_sample(|| json!({"kind": "routes", "tt": tt.to_hex(), "ids": ids}));
+        }
+        check_routes(&tt, &ids)
+    });
+    ctx.stage("routes-random-functions-5-6-vars", false, r)?;
+
     let cases = ctx.tier.pick(40_000, 3_000_000);
     let max_ops = ctx.tier.pick(40, 80);
     let r = par_random(ctx, "histories", cases, 400, |tape, st| {
